@@ -85,7 +85,7 @@ def gen_op(rng, n, closed):
     if roll < 0.81:
         return {"name": "set_padding", "v": gen_padding(rng)}
     if roll < 0.87:
-        return {"name": "set_render_args", "v": rng.choice(["a0", "a1", "a2", "a3", "a2", "a3", "incompatible", "child"])}
+        return {"name": "set_render_args", "v": rng.choice(["a0", "a1", "a2", "a3", "a2", "a3", "incompatible", "child", "a4", "a5", "a4"])}
     if roll < 0.94:
         return {"name": "set_render_size", "v": [rng.randrange(1, 5), rng.randrange(1, 4)]}
     if roll < 0.96:
@@ -137,6 +137,31 @@ def skip_scripts():
                         ops += [nx] * n                                # a loop that visits f again
                         init = {"n": n, "k": 0, "loops": loops, "cache": {"kind": "bool", "b": True, "n": 0}, "own": "iter"}
                         out.append((init, ops))
+    return out
+
+
+def args_value_scripts():
+    """Render-argument VALUES in the cache key (RenderIter.tla: ArgsUnhashable): a frame is cached
+    under X, then set_render_args(Y) is called with a NEW object - Y equal to X (the cache entry
+    stays valid: no second render) or different (it must be rendered again) - for hashable,
+    hash-colliding and UNHASHABLE values, and the frame is revisited by a seek resp. by the next
+    loop.  The cached iterator must do what the value semantics say - in particular it must
+    never raise where its uncached twin yields."""
+    out = []
+    nx = {"name": "next"}
+    vals = ["a0", "a2", "a3", "a4", "a5"]
+    for n in (2, 3):
+        for x in vals:
+            for y in vals:
+                if "a4" not in (x, y) and "a5" not in (x, y) and x != y:
+                    continue  # hashable-only pairs: the random histories and config B have them
+                for how in ("seek", "loop"):
+                    ops = [{"name": "set_render_args", "v": x}, nx, nx]
+                    ops += [{"name": "set_render_args", "v": y}]
+                    ops += [{"name": "seek", "off": 0, "whence": "START"}] if how == "seek" else [nx] * (n - 2)
+                    ops += [nx] * n + [{"name": "set_render_args", "v": x}] + [nx] * n
+                    init = {"n": n, "k": 0, "loops": -1, "cache": {"kind": "bool", "b": True, "n": 0}, "own": "iter"}
+                    out.append((init, ops))
     return out
 
 
@@ -257,7 +282,7 @@ def run(rep: Report, n_traces: int, pair: bool = False):
     rng = random.Random(rep.seed * 104729 + 8)
     groups: dict[tuple[int, int], list] = {}
     keep = []  # keep iterators' data alive so that id() stays unique within the batch
-    scripts = straight_scripts() + skip_scripts()
+    scripts = straight_scripts() + skip_scripts() + args_value_scripts()
     rep.extra["straight_histories"] = len(scripts)
     for j in range(n_traces + len(scripts)):
         tr = record(rng, pair, scripts[j] if j < len(scripts) else None)
